@@ -437,9 +437,7 @@ Theorem Mds_complete_metric_sp :
   forall (nbrs : list (list nat)) (w : nat -> nat -> Z) (N : nat),
     complete_graph nbrs N -> metric_w w N ->
     forall i j o, i < N -> j < N -> is_sp nbrs w i j o -> o = Some (w i j).
-Proof.
-  exact (fun nbrs w N Hc Hm i j o => complete_metric_sp_unique nbrs w N Hc Hm i j o).
-Qed.
+Proof. exact complete_metric_sp_unique. Qed.
 Print Assumptions Mds_complete_metric_sp.
 
 Theorem Mds_isomap_k_full :
